@@ -10,11 +10,7 @@ NOTES = (
     "Genuine defects found are repaired by `fix:` commits in /repo or listed in known_findings.json."
 )
 
-NOT_APPLICABLE = {
-    "C06": "equality of the results of two different programs over all databases: every clause (let/into naming, "
-           "beta-reduction, module paths, identity transforms) is decided by values the resolver computes at run time; "
-           "no clause has a code shape whose breakage necessarily changes a result (DESIGN.md section 4, C06)",
-}
+NOT_APPLICABLE = {}
 
 
 def claim(text, note, technique, ref, mir=False, std=False):
@@ -52,6 +48,15 @@ CLAIMS = {
         "limiting SELECT in extract_atomic, alias rule in translate_select_item, no silent widening in translate_exclude.",
         "Not decided: names a database reports for `*`; which names collide at run time.",
         "control-dependence / must-pass-through on syntax trees", "DESIGN.md 4 C05"),
+    "C06": claim(
+        "Decides the structural necessary conditions of four clauses only: consecutive filters of a SELECT are AND-ed in order and `&&` is "
+        "std.and (split conjunctive filter); the PL variable definition has no field that records `let` / `into` and the AST expansion does "
+        "not read the kind (into = let); a piped value is the one further argument of the next element, folded left to right (piped "
+        "argument); a named parameter gets the supplied named argument, else its declared default. Does NOT decide that the two "
+        "spellings return the same rows.",
+        "Not decided (value-dependent, no code shape whose breakage necessarily changes a result): let-table inlining vs CTE, beta-reduction "
+        "of user-function bodies, module paths, identity transforms, everything the SQL back-end does with the two programs.",
+        "borrowed table rows (C01.R3, C02.R2) + ADT field inventory + call-shape / value-flow checks on syntax trees", "DESIGN.md 4 C06"),
     "C07": claim(
         "Decides: every SQL implementation (base + 11 dialect modules) takes its holes from its own parameters at the "
         "positions of the std.prql declaration; closure of internal names, dialect module names and null-bodied operators; "
